@@ -192,12 +192,12 @@ impl Property for C11 {
     const ID: &'static str = "C11";
 
     fn rule() -> String {
-        "proptest-generated containers with 1-3 content packs in separate files (main pack through TwoFiles/NoConcat, extra packs always, OneFile with >=1 extra), contents distributed over all packs, directory entries pointing at real contents; for EVERY non-empty subset of the separate packs and every kind of unavailability {file deleted, replaced by a directory, replaced by a different valid container holding another uuid, replaced by a different valid bare content pack} (plus one mixed assignment). Oracle: Container::new succeeds; every entry equals the model; a content of an available pack reads to its bytes; a content of an unavailable pack answers MISSING whose pack id, uuid and location equal the manifest's (independent decoder) - not an error, a panic or bytes; get_pack(id > max) is None; check() is Ok(true). Non-trivial = a scenario with at least one pack unavailable and one available, both holding contents that are read; distinct by (packaging, pack count, subset, kind). Fixed cases 'alternative packs': two content packs declared under ONE id (spec/manifest.rst: the one declared first has priority) next to two ordinary packs, 4 declaration orders, every subset of the four pack files removed: while the first-declared pack is available its bytes are served; without it the answer is MISSING describing it (or the alternative's bytes); ordinary packs read or are MISSING as usual; check() is Ok(true).".into()
+        "proptest-generated containers with 1-3 content packs in separate files (main pack through TwoFiles/NoConcat, extra packs always, OneFile with >=1 extra), contents distributed over all packs, directory entries pointing at real contents; for EVERY non-empty subset of the separate packs and every kind of unavailability {file deleted, replaced by a directory, replaced by a different valid container holding another uuid, replaced by a different valid bare content pack} (plus one mixed assignment). Oracle: Container::new succeeds; every entry equals the model; a content of an available pack reads to its bytes; a content of an unavailable pack answers MISSING whose pack id, uuid and location equal the manifest's (independent decoder) - not an error, a panic or bytes; get_pack(id > max) is None; check() is Ok(true). Non-trivial = a scenario with at least one pack unavailable and one available, both holding contents that are read; distinct by (packaging, pack count, subset, kind). Fixed cases 'alternative packs': two content packs declared under ONE id (spec/manifest.rst: the one declared first has priority) next to two ordinary packs, 4 declaration orders, every subset of the four pack files removed: while the first-declared pack is available its bytes are served; without it the answer is MISSING describing it (or the alternative's bytes); ordinary packs read or are MISSING as usual; check() is Ok(true). Every scenario is asked again on a fresh container last pack first; then every deleted pack file is put back at its recorded location and the container that reported it missing must read its contents.".into()
     }
 
     fn cases(tier: Tier) -> u32 {
         match tier {
-            Tier::Quick => 1200,
+            Tier::Quick => 4800,
             Tier::Thorough => 100000,
         }
     }
@@ -391,6 +391,59 @@ impl Property for C11 {
             if read_avail > 0 && read_missing > 0 {
                 nontrivial_scenarios += 1;
                 info.class("some-available-some-not");
+            }
+            // the same questions in the opposite order on a freshly opened container: the packs
+            // declared last (the ones in their own files) are asked before the main pack
+            {
+                let cr = match jbk::reader::Container::new(d.join("a.jbk")) {
+                    Ok(c) => c,
+                    Err(e) => fail!("container-unreadable", "scenario {si} {sc:?}: Container::new fails: {e}"),
+                };
+                for (a, b) in built.model.contents.iter().rev() {
+                    let pid = a.pack_id.into_u16();
+                    match (read_content(&cr, *a), unavailable(pid)) {
+                        (ContentRead::Missing { .. }, true) => {}
+                        (ContentRead::Bytes(v), false) => ensure!(&v == b, "content-bytes", "scenario {si}, contents asked last pack first: content {a:?} of an available pack differs"),
+                        (other, true) => fail!("missing-not-reported", "scenario {si} {sc:?}, contents asked last pack first: content {a:?} of an unavailable pack: {}", other.describe()),
+                        (other, false) => fail!("available-content-unreadable", "scenario {si} {sc:?}, contents asked last pack first: content {a:?} of an available pack: {}", other.describe()),
+                    }
+                    evals += 1;
+                }
+                info.class("asked-last-pack-first");
+            }
+            // a pack that was reported missing becomes available while the container is open (the
+            // file is put back at its recorded location): the same container now reads it
+            {
+                let mut restored = vec![];
+                for (p, u) in separate.iter().zip(sc.iter()) {
+                    if matches!(u, Some(Unavail::Deleted) | Some(Unavail::Directory)) {
+                        let loc = String::from_utf8(p.location.clone()).unwrap();
+                        let path = d.join(&loc);
+                        if path.is_dir() {
+                            std::fs::remove_dir(&path).unwrap();
+                        }
+                        std::fs::copy(base.join(&loc), &path).unwrap();
+                        restored.push(p.pack_id);
+                    }
+                }
+                if !restored.is_empty() && read_missing > 0 {
+                    for (a, b) in &built.model.contents {
+                        if !restored.contains(&a.pack_id.into_u16()) {
+                            continue;
+                        }
+                        match read_content(&c, *a) {
+                            ContentRead::Bytes(v) => ensure!(&v == b, "content-bytes", "scenario {si}: content {a:?} of a pack put back at its location differs"),
+                            other => fail!(
+                                "restored-pack-still-missing",
+                                "scenario {si} {sc:?}: pack {} was reported missing, its file was then put back at its recorded location, and the same container answers for content {a:?}: {}",
+                                a.pack_id.into_u16(),
+                                other.describe()
+                            ),
+                        }
+                        evals += 1;
+                    }
+                    info.class("missing-pack-put-back");
+                }
             }
             // "the container check covers the packs that are present": damage one byte inside the
             // checked range of the LAST available separate pack (so that unavailable ones precede
